@@ -24,7 +24,11 @@ Inductive exp :=
 | EUn (u : uop) (e : exp) | EBin (b : bop) (l r : exp) | EParen (e : exp)
 | ETable (fs : list exp)                             (* fields: FPos / FNamed / FKey only *)
 | FPos (e : exp) | FNamed (n : bytes) (e : exp) | FKey (k e : exp)
-| ETableML (fs : list exp).                          (* a table whose `{` is followed by a line break in the source: always written over several lines *)
+| ETableML (fs : list exp)                           (* a table whose `{` is followed by a line break in the source: always written over several lines *)
+(* the lines of such a table (only there): a field with "an empty line precedes it" and the comment behind its comma;
+   a comment on a line of its own.  A bare field among the lines is a field line without either. *)
+| FLine (b : bool) (f : exp) (t : option bytes)
+| FCom (b : bool) (x : bytes).
 
 (* Comments at statement level.  A comment is the text of a line comment after its two dashes, without trailing
    blanks; [trivia] is a run of own-line comments, each with the flag "a blank line precedes it".
@@ -54,6 +58,7 @@ with blk := Blk (items : list item) (tail : trivia).
 Fixpoint shape (e : exp) : expr :=
   match e with
   | ECall _ _ _ | EMethod _ _ _ _ | EVararg => Multi
+  | FLine _ _ _ | FCom _ _ => Multi          (* never looked through: parentheses around a table line (no tree the parser returns) stay *)
   | EParen x => Paren (shape x)
   | EUn u x => Un u (shape x)
   | EBin b l r => Bin b (shape l) (shape r)
@@ -72,6 +77,7 @@ Fixpoint nexp (c : ctx) (e : exp) : exp :=
   | EMethod o m sg args => EMethod (nexp Prefix o) m sg (map (nexp Std) args)
   | ETable fs => ETable (map (nexp Std) fs)
   | ETableML fs => ETableML (map (nexp Std) fs)
+  | FLine b f t => FLine b (nexp Std f) t
   | FPos x => FPos (nexp Std x)
   | FNamed n x => FNamed n (nexp Std x)
   | FKey k x => FKey (nexp Std k) (nexp Std x)
@@ -130,6 +136,7 @@ Fixpoint cexp (obs : bool) (e : exp) : exp :=
   | EParen x => EParen (cexp false x)
   | ETable fs => ETable (map (cexp false) fs)
   | ETableML fs => ETableML (map (cexp false) fs)
+  | FLine b f t => FLine b (cexp false f) t
   | FPos x => FPos (cexp false x)
   | FNamed n x => FNamed n (cexp false x)
   | FKey k x => FKey (cexp false k) (cexp false x)
@@ -241,7 +248,16 @@ Fixpoint pexp (d : nat) (e : exp) {struct e} : list tok :=
   | FNamed n x => TIdent n :: sp :: kw "=" :: sp :: pexp d x
   | FKey k x => kw "[" :: pexp d k ++ kw "]" :: sp :: kw "=" :: sp :: pexp d x
   | ETableML [] => [kw "{"; kw "}"]
-  | ETableML fs => kw "{" :: eol c :: List.concat (map (fun f => indent c (S d) ++ pexp (S d) f ++ [kw ","; eol c]) fs) ++ indent c d ++ [kw "}"]
+  | ETableML fs =>
+    kw "{" :: eol c :: List.concat (map (fun x =>
+      match x with
+      | FCom b t => (if b then [eol c] else []) ++ indent c (S d) ++ [TLineCom t; eol c]
+      | FLine b f t => (if b then [eol c] else []) ++ indent c (S d) ++ pexp (S d) f ++ kw "," :: (match t with Some t1 => [sp; TLineCom t1] | None => [] end) ++ [eol c]
+      | f => indent c (S d) ++ pexp (S d) f ++ [kw ","; eol c]
+      end) fs) ++ indent c d ++ [kw "}"]
+  (* outside the lines of such a table the two line forms have no layout of their own *)
+  | FLine _ f _ => pexp d f
+  | FCom _ _ => [kw "nil"]
   end.
 Definition pexps (d : nat) (es : list exp) : list tok := commas (map (pexp d) es).
 End PExp.
@@ -259,6 +275,8 @@ Notation pexps := (pexps c).
 Definition ptrivia (d : nat) (tv : trivia) : list tok :=
   List.concat (map (fun bc : bool * bytes => (if fst bc then [eol c] else []) ++ indent c d ++ [TLineCom (snd bc); eol c]) tv).
 Definition ptrail (t : option bytes) : list tok := match t with Some x => [sp; TLineCom x] | None => [] end.
+(* no comment among the tokens *)
+Definition nocom (ts : list tok) : bool := forallb (fun t => match t with TLineCom _ | TBlockCom _ _ => false | _ => true end) ts.
 (* no line break among the tokens *)
 Definition oneline (ts : list tok) : bool := forallb (fun t => match t with TWs w => negb (existsb (fun ch => Ascii.eqb ch LF) w) | _ => true end) ts.
 Definition blk_empty (b : blk) : bool := match b with Blk [] [] => true | _ => false end.
@@ -280,7 +298,7 @@ Fixpoint pstmt (d : nat) (s : stmt) {struct s} : list tok :=
   let fbody (b : blk) : list tok :=
     if blk_empty b then [sp; kw "end"]
     else match fun_guard c b with
-         | Some s1 => if oneline (psimple d s1) then sp :: psimple d s1 ++ [sp; kw "end"]         (* function f() return x end *)
+         | Some s1 => if oneline (psimple d s1) && nocom (psimple d s1) then sp :: psimple d s1 ++ [sp; kw "end"]         (* function f() return x end *)
                       else eol c :: pblk (S d) b ++ indent c d ++ [kw "end"]                      (* functions.rs: spans_multiple_lines *)
          | None => eol c :: pblk (S d) b ++ indent c d ++ [kw "end"]
          end in
@@ -291,7 +309,9 @@ Fixpoint pstmt (d : nat) (s : stmt) {struct s} : list tok :=
   | SRepeat b e => kw "repeat" :: eol c :: pblk (S d) b ++ indent c d ++ kw "until" :: sp :: pexp d e
   | SIf e t r =>
     match if_guard c t r with
-    | Some s1 => kw "if" :: sp :: pexp d e ++ sp :: kw "then" :: sp :: psimple d s1 ++ [sp; kw "end"]      (* if x then return end *)
+    | Some s1 =>
+      if nocom (psimple d s1) then kw "if" :: sp :: pexp d e ++ sp :: kw "then" :: sp :: psimple d s1 ++ [sp; kw "end"]      (* if x then return end *)
+      else kw "if" :: sp :: pexp d e ++ sp :: kw "then" :: eol c :: pblk (S d) t ++ pels d r ++ indent c d ++ [kw "end"]
     | None => kw "if" :: sp :: pexp d e ++ sp :: kw "then" :: eol c :: pblk (S d) t ++ pels d r ++ indent c d ++ [kw "end"]
     end
   | SNumFor v a b st body =>
